@@ -72,6 +72,35 @@ def build_cases(ctx, T, rounds):
                 continue
             cases.append(("asm", "asm " + inst.text(), ",".join(str(w) for w in inst.words())))
             cases.append(("parse", "parse " + instgen.to_bytes(list(hdr) + inst.words()).hex(), inst.text()))
+    # every value of every parameterised kind (all enumerants of ExecutionMode, Decoration, ...; 0 / each bit / all bits
+    # of ImageOperands, MemoryAccess, ...) in the first instruction that takes the kind, all optional operands present
+    for kind, values in g.parameterised():
+        hosts = [r for r in g.nestable() if any(k == kind for k, _ in r["ops"])]
+        if not hosts:
+            continue
+        for hi, host in enumerate(hosts[:2]):
+            nopt = sum(1 for _, q in host["ops"] if q == "ZeroOrOne")
+            for v in values:
+                g.next_id = 10
+                inst = g.inst(host, opt_count=nopt, many=1, force_kind=(kind, v))
+                if len(inst.words()) >= 65536:
+                    continue
+                cases.append(("asm", "asm " + inst.text(), ",".join(str(w) for w in inst.words())))
+                cases.append(("parse", "parse " + instgen.to_bytes(list(hdr) + inst.words()).hex(), inst.text()))
+    # every variant of dr::Operand, also those no grammar kind decodes to (Operand::Scope, Operand::MemorySemantics, ...: a user
+    # can build them by hand): one arm of `impl Assemble for dr::Operand` each, on an operand-carrying OpNop
+    from props import c07
+    for r in c07.operand_requests(T, g.rnd, ctx.tier):
+        tok = r.split(" ", 1)[1]
+        vi, val = tok.split(":", 1)
+        if val.startswith("Q"):
+            o = instgen.Op("q", int(vi), int(val[1:]))
+        elif val.startswith("S"):
+            o = instgen.Op("s", int(vi), list(bytes.fromhex(val[1:])) if val[1:] != "-" else [])
+        else:
+            o = instgen.Op("w", int(vi), int(val))
+        inst = instgen.Inst(0, "Nop", None, None, [o])
+        cases.append(("asm", "asm " + inst.text(), ",".join(str(w) for w in inst.words())))
     return cases
 
 
